@@ -33,7 +33,7 @@ func init() {
 			n = 1600
 		}
 		for i := 0; i < n; i++ {
-			cfg := WorldCfg{Dir: []string{"forward", "reverse", "nested-ff", "nested-rf"}[i%4], Carrier: []string{"", "grpc"}[(i/4)%2]}
+			cfg := WorldCfg{Dir: allDirs[i%6], Carrier: []string{"", "grpc"}[(i/6)%2]}
 			if rng.Intn(4) == 0 {
 				cfg.ClientNoFC, cfg.ServerNoFC = true, true
 			}
